@@ -153,16 +153,33 @@ def corrupt(pairs, kind, k1, k2):
     return [[bytes(a), bytes(b)] for a, b in cp]
 
 
-def check_tree(shape, bodies, leaf_idx, pre, corruption=None, k1=0, k2=0):
+def _comb(n, left):
+    s = 'L'
+    for _ in range(n - 1):
+        s = (s, 'L') if left else ('L', s)
+    return s
+
+
+def _leaves_of(nd):
+    out = []
+    for ch in (nd.left, nd.right):
+        out.extend([ch] if isinstance(ch, T.ScriptLeaf) else _leaves_of(ch))
+    return out
+
+
+def check_tree(shape, bodies, leaf_idx, pre, corruption=None, k1=0, k2=0, dup=None):
     fails = []
     n = len(bodies)
     scripts = [observed(bytes([i, 0x5a]), bodies[i]) for i in range(n)]
+    tags = {scripts[i]: bytes([i, 0x5a]) for i in range(n)}
+    if dup is not None and corruption is None and n >= 3:
+        # the same script committed at two positions of one tree
+        scripts[dup[1] % n] = scripts[dup[0] % n]
     if any(len(s) > 1024 for s in scripts):
         raise ValueError('leaf too large')
     if shape == 'L':
         raise ValueError('a tree needs two leaves')
     tree, leaves = build(shape, scripts)
-    tags = {scripts[i]: bytes([i, 0x5a]) for i in range(n)}
     lock = tree.locking_script().bytes
     root = tree.root()
     leaf = leaves[leaf_idx % n]
@@ -183,23 +200,25 @@ def check_tree(shape, bodies, leaf_idx, pre, corruption=None, k1=0, k2=0):
             fails.append(('merkle/honest-proof-runs-wrong-leaves', 'ran %r expected %r' % (seen, [tags[leaf.script.bytes]])))
         elif ok != own:
             fails.append(('merkle/verdict-differs-from-leaf-own-verdict', 'lock %r leaf alone %r' % (ok, own)))
-        # serialisation
+        # serialisation: this tree and a second tree over the same leaf scripts are both packed, then both read back,
+        # then every leaf of both restored trees must still give its own proof
         try:
-            t2 = T.ScriptNode.unpack(tree.pack())
-            if t2.root() != root:
+            want = [x.unlocking_script().bytes for x in leaves]
+            shape_b = _comb(n, True) if shape != _comb(n, True) else _comb(n, False)
+            tree_b, leaves_b = build(shape_b, scripts)
+            want_b = [x.unlocking_script().bytes for x in leaves_b]
+            packed, packed_b = tree.pack(), tree_b.pack()
+            t2 = T.ScriptNode.unpack(packed)
+            first = [x.unlocking_script().bytes for x in _leaves_of(t2)]
+            t3 = T.ScriptNode.unpack(packed_b)
+            if t2.root() != root or t3.root() != tree_b.root():
                 fails.append(('merkle/pack-unpack-changes-root', ''))
-            else:
-                l2 = []
-
-                def walk(nd):
-                    for ch in (nd.left, nd.right):
-                        if isinstance(ch, T.ScriptLeaf):
-                            l2.append(ch)
-                        else:
-                            walk(ch)
-                walk(t2)
-                if [x.unlocking_script().bytes for x in l2] != [x.unlocking_script().bytes for x in leaves]:
-                    fails.append(('merkle/pack-unpack-changes-unlocking-scripts', ''))
+            elif first != want:
+                fails.append(('merkle/pack-unpack-changes-unlocking-scripts', ''))
+            elif [x.unlocking_script().bytes for x in _leaves_of(t2)] != want or [x.unlocking_script().bytes for x in _leaves_of(t3)] != want_b:
+                fails.append(('merkle/pack-unpack-changes-unlocking-scripts/after-restoring-a-second-tree', ''))
+            elif t2.pack() != packed:
+                fails.append(('merkle/pack-unpack-pack-differs', ''))
         except BaseException as e:  # noqa
             if isinstance(e, (KeyboardInterrupt, SystemExit)):
                 raise
@@ -297,7 +316,7 @@ def check_case(case):
             raise ValueError('shape/bodies')
         if case.get('corruption') is not None and case['corruption'] not in CORRUPTIONS:
             raise ValueError('corruption')
-        return check_tree(shape, bodies, case['leaf'], case['pre'], case.get('corruption'), case.get('k1', 0), case.get('k2', 0))[0]
+        return check_tree(shape, bodies, case['leaf'], case['pre'], case.get('corruption'), case.get('k1', 0), case.get('k2', 0), case.get('dup'))[0]
     if k == 'builder':
         if not 1 <= case['n'] <= 40:
             raise ValueError('n')
@@ -321,13 +340,16 @@ def _shape_json(s):
     return 'L' if s == 'L' else [_shape_json(s[0]), _shape_json(s[1])]
 
 
-def _do_tree(ctx, shape, bodies, li, pre, cor, k1, k2):
-    fails, info = check_tree(shape, bodies, li, pre, cor, k1, k2)
+def _do_tree(ctx, shape, bodies, li, pre, cor, k1, k2, dup=None):
+    fails, info = check_tree(shape, bodies, li, pre, cor, k1, k2, dup)
     if info.get('skipped'):
         return
     n = len(bodies)
     case = {'check': 'tree', 'shape': _shape_json(shape), 'bodies': bodies, 'leaf': li, 'pre': pre, 'corruption': cor, 'k1': k1, 'k2': k2}
-    ctx.case((case['shape'], bodies, li, pre, cor, k1, k2), n >= 3 or cor is not None)
+    if dup is not None:
+        case['dup'] = list(dup)
+        ctx.count('case:same-script-at-two-positions')
+    ctx.case((case['shape'], bodies, li, pre, cor, k1, k2, dup), n >= 3 or cor is not None)
     ctx.count('case:' + (cor or 'honest'))
     if cor and info.get('still_valid'):
         ctx.count('corruption-still-valid')
@@ -352,6 +374,8 @@ def task_shapes(ctx):
         for li in range(n):
             for pre in PRES:
                 _do_tree(ctx, shape, bodies, li, pre, None, 0, 0)
+            if n >= 3:
+                _do_tree(ctx, shape, bodies, li, PRES[idx % 3], None, 0, 0, (li, (li + 2 + idx % (n - 2)) % n))
             for ci, cor in enumerate(CORRUPTIONS):
                 for rep in range(2 if not ctx.thorough() else 8):
                     h = hashlib.sha256(b'%d:%d:%d:%d:%d' % (ctx.base_seed, idx, li, ci, rep)).digest()
@@ -404,7 +428,11 @@ def rand_case(draw):
                 b = b''
             bodies.append(b[:180] if b else BODIES[0])
     cor = draw(st.sampled_from([None] + CORRUPTIONS + CORRUPTIONS))
-    return shape, bodies, draw(st.integers(0, n - 1)), draw(st.sampled_from(PRES)), cor, draw(st.integers(0, 255)), draw(st.integers(0, 65535))
+    dup = None
+    if cor is None and n >= 3 and draw(st.booleans()):
+        dup = tuple(draw(st.lists(st.integers(0, n - 1), min_size=2, max_size=2, unique=True)))
+    return (shape, bodies, draw(st.integers(0, n - 1)), draw(st.sampled_from(PRES)), cor, draw(st.integers(0, 255)), draw(st.integers(0, 65535)),
+            dup)
 
 
 def task_random(ctx):
